@@ -5,6 +5,36 @@ NOTES = ("Every check: (1) regenerates the constants/tables translation from /re
          "correspondence suites the property depends on, (4) runs the property's oracle on the real code. See DESIGN.md.")
 NOT_CLAIMED = {}
 CHECKS = {
+    "C12": {
+        "text": "Machine-checked proof (Lean 4; every scalar type unless said otherwise) of the bookkeeping the property is about: the three row counters (pattern construction, residual fill, derivative scatter) agree - every scattered cell is a pattern cell of the same request at the same row offset, request i's residual components sit at rows rowOffset(i)..; permuting the request list permutes the residual and the (column, value) contributions as multisets, with explicit row maps for adjacent swaps, and never changes which error is raised; renumbering the variables by any injective map (guess list reordered to match) leaves every residual, warning, lint, validation result and the unsatisfied sweep unchanged and maps Jacobian columns through the renumbering (all 23 kinds); over the reals the damped step is invariant under row permutations and equivariant under column permutations, and the residual test, step norm and relative-step threshold depend only on multisets; the priority levels do not depend on the listing order.",
+        "design_ref": "DESIGN.md §6 C12",
+        "note": "The end-to-end equivariance of the f64 solve ('up to numerical noise') is the oracle's subject: all permutations for <= 4 requests, sampled otherwise, plus renumberings, on the real code. F16 is a known finding.",
+        "technique": "Lean 4 proof (induction over the request list; case analysis over the 23 kinds for renaming; Mathlib matrix algebra for the step) + kernel/trace correspondence + permutation / renumbering oracle on the real code",
+    },
+    "C15": {
+        "text": "Machine-checked proof (Lean 4): over the reals, an explicit-angle request of 0/180/360 degrees or 0/pi/2pi radians gets exactly the 'use Parallel' warning naming it and +-90 degrees or +-pi/2 radians the 'use Perpendicular' one; an angle more than 0.01 degrees from every multiple of 90 (sharp version: at least EPSILON from the five tested values) gets none; no other kind gets one; the two are never confused and a request gets at most one; for every scalar type, every return path of a level (Ok, validation, Newton, sweep and analysis failures) carries the lint of the attempted subset, the public entry point carries the lint of the subset it returns (all requests when there is one priority level); every degeneracy notice names a request whose evaluation raised the flag at a visited configuration; the flag is characterised geometrically per guarded kind; and a collapse at the initial guess always yields the notice for that request, in Ok and Err results alike.",
+        "design_ref": "DESIGN.md §6 C15",
+        "note": "The 'always' clause is false of the code for requests above the returned priority level: known finding F12, with a machine-checked negation witness. The f64 lint at the special values in both units and the absence of notices on clean starts are checked by the oracle on the real code.",
+        "technique": "Lean 4 + Mathlib proof (interval arithmetic on the lint thresholds; provenance of warnings through the loop; guard characterisation per kind) + kernel/trace correspondence + warning-audit oracle on the real code",
+    },
+    "C16": {
+        "text": "Machine-checked proof (Lean 4) about the model of the command-line program: the exit status is 0 exactly when the text was read, parsed, built and solved through the library, and 1 with a diagnostic otherwise; the only panic sites on the path (executor indexing, labelling, print_unsatisfied indexing) are unreachable for every text - the CLI panics iff the library's solve does; on success the standard output is exactly warnings, the unsatisfied section (one line per index, in order), the size / iterations / priority lines with the library's own numbers, and with --show-points one line per labelled point, circle and arc, each section depending only on its own list (arcs are printed without circles); the benchmark re-solves return the first result.",
+        "design_ref": "DESIGN.md §6 C16",
+        "note": "Mostly translation validation: the release binary built from /repo's working tree is run by path and by stdin and compared line by line with the model's rendering; the model's parse / build stages and sizes are recomputed from the text and compared with what the library reported.",
+        "technique": "Lean 4 proof (decision table of main; index bounds from C03/C07/C09) + exact text correspondence + binary-vs-model differential on generated texts",
+    },
+    "C17": {
+        "text": "Machine-checked proof (Lean 4) of why independent groups cannot influence each other: for request groups sharing no variables the assembled Jacobian is block diagonal and the residual a concatenation at every configuration, for any scalar type, with each group's rows depending only on that group's variables; over the reals the damped step of the union is exactly the pair of the groups' own steps, the union's residual test passes iff every group's does, and the union's step norm is the largest group norm; an Ok result never contains a non-finite value (the NaN cross-talk path named in the property is closed by the fix of F3).",
+        "design_ref": "DESIGN.md §6 C17",
+        "note": "Equality of returned values across different iteration counts is a convergence quantity: searched on the real code with unions of up to 200 groups, interleaved requests and shuffled numbering. F16 is a known finding.",
+        "technique": "Lean 4 proof (append laws of the assembly; Mathlib block matrices) + trace-replay correspondence + union-vs-parts oracle on the real code",
+    },
+    "C05": {
+        "text": "Machine-checked proof (Lean 4 + Mathlib, over the reals) that the coded freedom analysis (rank by sigma > 1e-8*sigma_max, columns rank..n of V, participation norm, > 1e-3*max) reports variable j if and only if some direction v with J v = 0 has v_j != 0, whenever (sigma, V) satisfies the part of the SVD contract the code relies on and the spectrum and participations have a gap (the property's well-separated cases); that the squared participation is the squared length of the projection of e_j on ker J; that an unmentioned variable is reported and a pinned one is not; and (every scalar type) that the Jacobian analysed is that of exactly the attempted requests at a visited configuration (the returned one after a residual-test stop), that the answer is a strictly increasing list of positions < n, and that with no constraints every variable is reported.",
+        "design_ref": "DESIGN.md §6 C05",
+        "note": "Tied to find_dof.rs by trace replay: calculate is re-run by the model as an exact function of Rust's (sigma, V); the SVD contract is checked as a certificate with numpy. The oracle compares with an independent finite-difference null space on the real code.",
+        "technique": "Lean 4 + Mathlib proof (orthogonal diagonalisation of JtJ; list-level characterisation of calculate) + trace-replay correspondence with SVD certificate + independent null-space oracle",
+    },
     "C02": {
         "text": "Machine-checked proof (Lean 4): for every scalar type, each round of the model's loop is 'residual test, then the solver's step for the Jacobian and residual at the current point, then x + d, then the step test', and a start at an exact solution returns at once; over the reals (Mathlib) the damped step exists, is unique, is a descent direction and vanishes exactly at stationary points; on consistent linear systems no step moves away from any solution; and the abstract contraction argument: a 1/2-contraction towards x* on a ball containing the guess keeps every iterate in the ball, halves the error each round and never takes an iterate farther from the guess than 1.5 times the guess-to-x* distance (quadratic error reduction implies the hypothesis). With C13 (Jacobian = derivative for all 23 kinds) this is the whole logical content; convergence of the f64 iteration on a given system is searched on the real code, not proved.",
         "design_ref": "DESIGN.md §6 C02",
